@@ -5,7 +5,7 @@ import numpy as np
 
 RULE = ("all member-length vectors with <=5 members and entries <=3 (quick) / <=6 members, entries <=4 (thorough), every index 0<=i<len "
         "plus two past the end, members built with distinct grid sizes so that a wrong member is visible; plus random longer vectors; "
-        "non-trivial = vector with at least one non-empty member; distinct = distinct length vector; later additions: random statement lists on ONE live collection against the state machine C16.machine (members resized by assignment or in place, member / collection update_self_config, .mazes, [i] with Python and numpy integers, len, dataset_lengths, cfg.n_mazes), members passed as list / tuple / generator / map / iterator, iteration, generated collections, short and shared config lists")
+        "non-trivial = vector with at least one non-empty member; distinct = distinct length vector; later additions: random statement lists on ONE live collection against the state machine C16.machine (members resized by assignment or in place, member / collection update_self_config, .mazes, [i] with Python and numpy integers, len, dataset_lengths, cfg.n_mazes), members passed as list / tuple / generator / map / iterator, iteration, generated collections, short and shared config lists, the caller recycles the lists it built the members from and wraps .mazes in a dataset of its own")
 ASSUMPTIONS = ["np.searchsorted / itertools.accumulate behave as documented (validated on every case by the correspondence)",
                "member datasets satisfy cfg.n_mazes == len (maintained by generate / filters / update_self_config; n_mazes is compare=False)"]
 TRUSTED = ["parametricity: the model is polymorphic in the maze type, identity is checked with Python `is` by the harness"]
